@@ -120,6 +120,31 @@ def read_other():
             pass
 
 
+class short_watchdog(object):
+    """Inside a worker (call watchdog installed): tick every `seconds` while a pool step runs, so that a step of
+    the tool that does not terminate costs seconds, not minutes.  Outside a worker: nothing."""
+    def __init__(self, seconds=4.0):
+        self.seconds = seconds
+        self.old = None
+
+    def __enter__(self):
+        import signal
+        from . import runner
+        if signal.getsignal(signal.SIGALRM) is runner._on_tick:
+            runner._last_tick[0] = None
+            self.old = signal.setitimer(signal.ITIMER_REAL, self.seconds, self.seconds)
+        return self
+
+    def __exit__(self, *exc):
+        import signal
+        from . import runner
+        if self.old is not None:
+            runner._last_tick[0] = None
+            interval = self.old[1] or float(__import__('os').environ.get('VT_CALL_TIMEOUT') or 60)
+            signal.setitimer(signal.ITIMER_REAL, interval, interval)
+        return False
+
+
 def _ops():
     from .props import c04
     from trees import transform
@@ -207,7 +232,7 @@ def live_states(inits, depth, skip_ops=(), first=0):
         # raising / binarize steps are then within the depth bound
         try:
             flags = frozenset()
-            with quiet():
+            with short_watchdog(), quiet():
                 for name in PREPARATION:
                     read_other()
                     t = ops[name](t)
@@ -237,14 +262,21 @@ def live_states(inits, depth, skip_ops=(), first=0):
             counts['transitions'] += 1
             try:
                 read_other()
-                with quiet():
+                with short_watchdog(), quiet():
                     r = fn(t)
                 n_exp = n_before - 1 if name.startswith('delete_') else n_before
                 if r is None or monitor(r, n_exp):
                     counts['dead'] += 1
                     continue
-            except Exception:
+            except Exception as e:
                 counts['dead'] += 1
+                if type(e).__name__ == 'LibraryTimeout':
+                    # a step of the tool that does not terminate: not this pool's business to report (C04's live
+                    # paths do), but the search cannot go on at this price - stop after the second one
+                    counts['timeouts'] = counts.get('timeouts', 0) + 1
+                    if counts['timeouts'] >= 2:
+                        counts['aborted'] = True
+                        return
                 continue
             nf = _next_flags(name, flags)
             key = (canon(r), nf, _hidden_signature(r))
